@@ -518,6 +518,59 @@ func CheckConformance(rep Reporter, eng Engine, ts *rs.TypeSystem, t *rs.Type, i
 	} else {
 		rep.Count("conformance_rejected", 1)
 	}
+	// Second route for the same input: the whole tree held by another implementation and handed to the top-level
+	// builder with ONE AssignNode (the library's generic copy, or the engine's own AssignNode, then walks it). What
+	// a builder accepts must not depend on the way the data arrives; an element the position cannot hold has to
+	// surface as the error of that call. (Written after reading a surviving mutant: datamodel.Copy returning nil
+	// when a list element's AssignNode failed.) Type-level trees with struct-keyed maps are not expressible as a
+	// plain foreign tree and are left to the first route.
+	// A tree whose only fault is a repeated key inside an Any position is left out as well: held by a foreign
+	// node it is not a data-model map at all, and an Any position keeps the node it is given (my first version
+	// flagged that; the builder is right).
+	if o.Accepted == refAccepts && (in.K == model.KList || in.K == model.KMap) && (reprLevel || !hasComplexKeys(ts, t, map[string]bool{}, true)) &&
+		!(werr != nil && reasonClass(werr) == "repeated_map_key_inside_Any") {
+		var o2 Outcome
+		func() {
+			defer func() {
+				if r := recover(); r != nil {
+					o2 = Outcome{Panic: fmt.Sprintf("%v\n%s", r, clip(string(debug.Stack()), 2000))}
+				}
+			}()
+			nb := proto.NewBuilder()
+			if err := nb.AssignNode(fnode.New(in)); err != nil {
+				o2 = Outcome{Err: err}
+				return
+			}
+			o2 = Outcome{Accepted: true, Node: nb.Build()}
+		}()
+		rep.Count("conformance_feeds_whole_node", 1)
+		switch {
+		case o2.Panic != "":
+			rep.Deviate("C09:assignnode:panic:"+sig, fmt.Sprintf("AssignNode of the whole tree panicked instead of returning an error: %s\n%s", o2.Panic, ctx()))
+		case o2.Accepted && werr != nil:
+			got := ""
+			func() {
+				defer func() { recover() }()
+				got = clip(readTyped(o2.Node).Val.Dump(), 300)
+			}()
+			rep.Deviate("C09:assignnode:accepts-nonconforming:"+sig+":"+reasonClass(werr), fmt.Sprintf("AssignNode of the whole tree accepted what the call-by-call feed refuses: %v\nbuilt node reads %s\n%s", werr, got, ctx()))
+		case !o2.Accepted && werr == nil:
+			rep.Deviate("C09:assignnode:rejects-conforming:"+sig, fmt.Sprintf("AssignNode of the whole tree rejected a conforming tree: %v\n%s", o2.Err, ctx()))
+		case o2.Accepted:
+			var got model.Val
+			func() {
+				defer func() {
+					if r := recover(); r != nil {
+						rep.Deviate("C09:assignnode:panic:read:"+sig, fmt.Sprintf("reading the node built by AssignNode panicked: %v\n%s", r, ctx()))
+					}
+				}()
+				got = readTyped(o2.Node).Val
+			}()
+			if !model.Equal(got, wantTV) {
+				rep.Deviate("C09:assignnode:accepted-value-differs:"+sig, fmt.Sprintf("the tree handed over with AssignNode reads back as %s\nthe input denotes %s\n%s", clip(got.Dump(), 400), clip(wantTV.Dump(), 400), ctx()))
+			}
+		}
+	}
 	return o.Accepted, refAccepts
 }
 
